@@ -15,11 +15,63 @@ LEXERS = ['basic', 'dynamic', 'dynamic_complete']
 
 
 # --------------------------------------------------------------------------- grammars
-def gen_grammar(rng, cyclic=False, empties=True, prios=True, tprios=True):
+def gen_alternative(rng, nt, nts, terms, cyclic, empties, ebnf):
+    """one alternative: 1-3 items, each a symbol, `x?`, a maybe-placeholder `[x]` / `[x y]` or a group `(x | y)`
+    - everything that makes Grammar.compile produce several Rule (and RuleOptions) objects for one definition.
+    Without `empties` at least one item is mandatory (no directly empty rule arises)."""
+    idx = nts.index(nt)
+
+    def sym():
+        return rng.choice(terms) if rng.random() < 0.45 else ('NT', rng.choice(nts))
+    items = []
+    for _ in range(rng.choice([1, 1, 2, 2, 3])):
+        r = rng.random()
+        if ebnf and r < 0.12:
+            items.append(('group', [sym(), sym()]))
+        elif ebnf and r < 0.30:
+            items.append(('maybe', [sym()] if rng.random() < 0.8 else [sym(), sym()]))
+        elif (ebnf and r < 0.38) or (empties and r < 0.08):
+            items.append(('opt', [sym()]))
+        else:
+            items.append(('plain', [sym()]))
+    if not empties and not any(k in ('plain', 'group') for k, _ in items):
+        items[0] = ('plain', items[0][1][:1])
+    has_term = any(k == 'plain' and not isinstance(ss[0], tuple) for k, ss in items)
+
+    def name(s_):
+        if not isinstance(s_, tuple):
+            return s_
+        nm = s_[1]
+        # without a mandatory terminal beside it a reference may only go "down" (no derivation cycles)
+        if not cyclic and not has_term and nts.index(nm) <= idx:
+            later = nts[idx + 1:]
+            nm = rng.choice(later) if later else rng.choice(terms)
+        return nm
+    out = []
+    for k, ss in items:
+        names = [name(x) for x in ss]
+        if k == 'plain':
+            out.append(names[0])
+        elif k == 'opt':
+            out.append(names[0] + '?')
+        elif k == 'maybe':
+            out.append('[' + ' '.join(names) + ']')
+        else:
+            if names[0] == names[1]:
+                out.append(names[0])
+            else:
+                out.append('(' + ' | '.join(names) + ')')
+    return ' '.join(out)
+
+
+def gen_grammar(rng, cyclic=False, empties=True, prios=True, tprios=True, ebnf=None):
     """Random grammar over terminals A:"a" B:"b" (+ AB:"ab", AA:"aa", A2:"a"), 2-4 non-terminals, signed
-    rule priorities (rule.2:), terminal priorities (A.3:), nullable alternatives, optionally unit cycles.
+    rule priorities (rule.2:), terminal priorities (A.3:), nullable alternatives, optionally unit cycles;
+    with `ebnf` (default: 60% of the grammars) also `x?`, `[x]` placeholders and groups inside the rules.
     Rule names are plain lower-case and terminals are named, so no tree shaping applies (no inlining, no
     filtered tokens): the tree returned by lark determines the derivation."""
+    if ebnf is None:
+        ebnf = rng.random() < 0.6
     nts = ['start', 'a', 'b', 'c'][:rng.randint(2, 4)]
     terms = ['A', 'B']
     extra = [('AB', 'ab'), ('AA', 'aa'), ('A2', 'a'), ('BB', 'bb')]
@@ -37,32 +89,7 @@ def gen_grammar(rng, cyclic=False, empties=True, prios=True, tprios=True):
             if empties and r < 0.12 and nt != 'start':
                 alts.append('')
                 continue
-            n = rng.choice([1, 1, 2, 2, 3])
-            syms = []
-            has_term = False
-            for _ in range(n):
-                opt = empties and rng.random() < 0.08
-                if rng.random() < 0.45:
-                    syms.append(rng.choice(terms))
-                    has_term = has_term or not opt
-                else:
-                    syms.append(('NT', rng.choice(nts)))
-                if opt:
-                    syms[-1] = (syms[-1], '?')
-            out = []
-            idx = nts.index(nt)
-            for s_ in syms:
-                opt = isinstance(s_, tuple) and s_[-1] == '?'
-                base = s_[0] if opt else s_
-                if isinstance(base, tuple):
-                    name = base[1]
-                    # without a mandatory terminal beside it a reference may only go "down" (no derivation cycles)
-                    if not cyclic and not has_term and nts.index(name) <= idx:
-                        later = nts[idx + 1:]
-                        name = rng.choice(later) if later else rng.choice(terms)
-                    base = name
-                out.append(base + ('?' if opt else ''))
-            alts.append(' '.join(out))
+            alts.append(gen_alternative(rng, nt, nts, terms, cyclic, empties, ebnf))
         if cyclic and rng.random() < 0.5:
             alts.append(rng.choice(nts))      # unit alternative, possibly "a: a"
         # drop duplicate alternatives (lark rejects them)
@@ -134,9 +161,7 @@ def gen_ignore_grammar(rng):
                     syms.append(rng.choice(terms))
                     has_term = True
                 else:
-                    # the start symbol is never used recursively: with %ignore lark carries every completed
-                    # start item over ignored text, which duplicates derivations (finding, see C20 EXOTIC)
-                    syms.append(('NT', rng.choice(nts[1:]) if len(nts) > 1 else rng.choice(terms)))
+                    syms.append(('NT', rng.choice(nts)))
             out = []
             for s_ in syms:
                 if isinstance(s_, tuple):
@@ -609,6 +634,35 @@ def traced_walk(cls, root, ids, tids, args=(), kw=None, method='visit', timeout=
     return dict(events=events, rets=rets, result=res, single=bool(v.single_visit))
 
 
+def multi_visit_size(nodes, cap=60000):
+    """number of node entries of a full multi-visit walk (every child returned, cycles cut at the path) of the
+    exported graph, or None when it exceeds cap: such walks terminate but take exponential time"""
+    sys.setrecursionlimit(10000)
+    count = [0]
+    path = set()
+
+    class Big(Exception):
+        pass
+
+    def go(i):
+        nd = nodes[i]
+        if nd['k'] == 'T':
+            return
+        count[0] += 1
+        if count[0] > cap:
+            raise Big()
+        path.add(i)
+        for c in (nd['order'] if nd['k'] == 'S' else kids(nd)):
+            if c not in path:
+                go(c)
+        path.discard(i)
+    try:
+        go(0)
+    except Big:
+        return None
+    return count[0]
+
+
 def trace_discipline(events, single):
     """The documented contract of the walk, checked on a recorded callback trace: in/out are properly nested,
     on_cycle(node, path) is called with the nodes entered and not yet exited and node is one of them, no node is
@@ -792,7 +846,7 @@ def tree_to_derivation(t, rules):
         return ('T', str(t.type), str(t))
     if not isinstance(t, Tree):
         return None
-    cs = [tree_to_derivation(c, rules) for c in t.children]
+    cs = [tree_to_derivation(c, rules) for c in t.children if c is not None]   # None = absent [x] placeholder
     if any(c is None for c in cs):
         return None
     shape = [(c[0] == 'T', c[1] if c[0] == 'T' else rules[c[1]]['origin']) for c in cs]
@@ -824,6 +878,25 @@ def id_callbacks(p):
 
 def empty_rule_ids(rules):
     return {r['id'] for r in rules if not r['exp']}
+
+
+def mixed_empty_possible(rules):
+    """can a symbol node hold a directly empty family beside a non-empty one?  Only on an empty span, when the
+    origin of an empty rule has another alternative all of whose symbols are nullable"""
+    nullable = set()
+    changed = True
+    while changed:
+        changed = False
+        for r in rules:
+            if r['origin'] not in nullable and all((not t) and n in nullable for t, n in r['exp']):
+                nullable.add(r['origin'])
+                changed = True
+    for e in rules:
+        if not e['exp']:
+            for r in rules:
+                if r['origin'] == e['origin'] and r['exp'] and all((not t) and n in nullable for t, n in r['exp']):
+                    return True
+    return False
 
 
 def empties_used(d, i=0, dynamic=True):
